@@ -1,0 +1,26 @@
+//go:build verif
+
+/*
+ * Verification-only constructor for the variable-stack check (property C14).
+ * Nothing in this file is compiled into production binaries (build tag `verif`).
+ */
+
+package environment
+
+import (
+	"github.com/AliceO2Group/Control/common/utils/uid"
+	"github.com/AliceO2Group/Control/core/workflow"
+)
+
+// VerifVSNewEnvironment calls the real newEnvironment: the environment-wide defaults and vars are
+// queried from the configuration service (the.ConfSvc()), the user vars are the request's, and the
+// three maps are wired to the workflow through the environment's own ParentAdapter, which is
+// returned together with the environment (GlobalDefaults, GlobalVars, UserVars, BaseConfigStack
+// are exported fields).
+func VerifVSNewEnvironment(userVars map[string]string) (*Environment, *workflow.ParentAdapter, error) {
+	env, err := newEnvironment(userVars, uid.New())
+	if err != nil {
+		return nil, nil, err
+	}
+	return env, env.wfAdapter, nil
+}
